@@ -192,6 +192,11 @@ class AssociationValidator(BaseValidator):
                 f"Provided '{valid}' of type {type(valid)} for parameter '{name}'"
             )
 
+        if isinstance(value, (list, tuple)):
+            for val in value:
+                cls.validate(name, val, valid)
+            return
+
         if isinstance(value, UUID):
             uid = value
         elif isinstance(value, (Entity, PropertyGroup)):
